@@ -1,5 +1,8 @@
 import vflib
 WRAPS = ("psGetEntropy", "gettimeofday", "time")
+COOKIE_LENS = (1, 16, 32, 33, 64, 255)
+LOSS_FLIGHTS = ("client-hello", "hello-verify-request", "client-hello-with-cookie", "server-hello-flight",
+                "client-finished-flight", "server-finished-flight")
 
 
 def run(ctx):
@@ -8,12 +11,22 @@ def run(ctx):
     rule = ("Each case = one configuration run in a forked child: the sanitizer build of MatrixSSL on one end, OpenSSL 3 on the other, "
             "over in-memory queues (TLS byte stream delivered in reads of 3/17/1399/4096/16389 bytes or whole flights; datagram queue for DTLS); both stacks "
             "use seeded randomness. Tuple = (role mx-client|mx-server, version TLS1.1/1.2/1.3/DTLS1.0/1.2, suite, server certificate type "
-            "RSA-2048/3072, RSA-PSS, ECDSA P-256/384/521, Ed25519, first key share > final group (HelloRetryRequest when different) over P-256/384/521/X25519/ffdhe, "
+            "RSA-2048/3072, RSA-PSS, ECDSA P-256/384/521, Ed25519, and the identities whose chain is signed with SHA-384 / SHA-512 (EC/384_EC_SHA384, EC/521_EC_SHA512, RSA/2048_RSA_SHA512 and "
+            "RSA/2048_RSA re-signed with sha384WithRSAEncryption by the sample CA key at start-up: below TLS 1.3 MatrixSSL signs ServerKeyExchange / CertificateVerify with the hash of its own certificate's signature), first key share > final group (HelloRetryRequest when different) over P-256/384/521/X25519/ffdhe, "
             "client-auth certificate type, resumption mode none/session-id/RFC5077 ticket/TLS1.3 ticket PSK/TLS1.3 external PSK, extended master secret on/off, "
-            "DTLS cookie on/off, payload plan). Oracle: both stacks complete; identical version/suite/(1.3) group/EMS that equal the pinned ones; tagged payloads "
+            "DTLS HelloVerifyRequest cookie of the OpenSSL server application: none or 1/16/24/32/33/64/255 bytes (DTLS 1.0 only up to 32, RFC 4347), which must be echoed bit-exact exactly as often as OpenSSL asks, "
+            "DTLS loss: none, or the first transmission of one handshake flight (named by content: client-hello, hello-verify-request, client-hello-with-cookie, server-hello-flight, client-finished-flight, "
+            "server-finished-flight; of the full handshake, or of the resumed one when the configuration resumes) is lost whole and both stacks retransmit in logical time - a timeout round only when nothing is in flight and the "
+            "handshake is incomplete; MatrixSSL's timer with the discipline of apps/dtls (extra matrixDtlsGetOutdata; never for a client that saw HANDSHAKE_COMPLETE or a server that completed a resumed handshake), OpenSSL's "
+            "through DTLSv1_handle_timeout on a clock only the harness advances (gettimeofday is interposed for libssl); both timers per round, or OpenSSL's / MatrixSSL's alone in the first round; at most 6 rounds, "
+            "payload plan). Oracle: both stacks complete; identical version/suite/(1.3) group/EMS that equal the pinned ones; tagged payloads "
             "of the planned sizes (1,100,16383,16384,16385,40000,200000 for TLS; 1,100,1000,1200 for DTLS) and bursts of 1..7-byte records round-trip bit-exact both ways, every second TLS 1.3 configuration makes both stacks pad application records to 1024-byte blocks, and every 7th (quick) / 4th (thorough) configuration also streams 300 one-record messages per direction (record sequence numbers cross a byte boundary under one key); "
             "after clean shutdown the second connection is resumed on both stacks' view and data round-trips again; a third connection offers the same resumption state to a peer that cannot use it (fresh OpenSSL context / MatrixSSL key set with other ticket keys and an emptied session cache) and must fall back to a full handshake that works. quick = every (role,version,suite) plus one-factor "
-            "deviations per key-exchange family plus a few many-factor TLS 1.3 cases (seed-independent set); thorough = the full product. "
+            "deviations per key-exchange family plus a few many-factor TLS 1.3 cases, plus one cell per (chain hash SHA-384/512 x key type, PRF hash SHA-256/384 of the suite, role, use as server / client-auth certificate) on TLS 1.2 "
+            "and the MatrixSSL-signs cells on DTLS 1.2 / TLS 1.3, plus every cookie length on both DTLS versions (long ones also with session-id / ticket resumption), plus every flight lost once in both roles on both DTLS versions "
+            "(PSK, ECDHE-RSA with a single-timer-first mode, ECDHE-ECDSA with client authentication, resumed, no cookie) (seed-independent set); thorough = the full product of the old dimensions, the chain-hash identities as server and "
+            "client certificate for every suite and version, every cookie length for every suite, every flight x every suite x every timer mode. "
+            "A lost flight must only delay the handshake: not complete on both stacks after 6 timeout rounds = dtls-loss-handshake-stalls, an error on either stack = dtls-loss-handshake-fails (family = the flight). "
             "evaluations = configurations executed against OpenSSL; distinct_nontrivial = distinct configuration tuples that both stacks support and that completed all "
             "phases; configurations one stack cannot do are counted under not_mutually_supported_<why> and are neither passes nor violations.")
 
@@ -25,11 +38,33 @@ def run(ctx):
                   "resumed_psk13_mx-client", "resumed_psk13_mx-server", "external_psk_handshakes_ok"):
             if res.stats.get(k, 0) == 0 and not res.viol:
                 res.incon.append("resumption mode never exercised: " + k)
+        # the added dimensions must have been exercised as well; the known open finding (Finished resent under a new epoch) makes exactly the
+        # flights that MatrixSSL has to resend together with a ChangeCipherSpec unrecoverable, every other (role, flight) must have recovered
+        unrecoverable = {("mx-client", "client-finished-flight"), ("mx-server", "server-finished-flight")}
+        for n in COOKIE_LENS:
+            if res.stats.get("cookie_%d_bytes_echoed" % n, 0) == 0 and not res.viol:
+                res.incon.append("cookie length never exercised: %d" % n)
+        for role in ("mx-client", "mx-server"):
+            for fl in LOSS_FLIGHTS:
+                if (role, fl) not in unrecoverable and res.stats.get("dtls_loss_recovered_%s_%s" % (role, fl), 0) == 0 and not res.viol:
+                    res.incon.append("no handshake recovered from the loss of the %s (%s)" % (fl, role))
+            for use in ("servercert", "clientauth"):
+                for h in ("sha384", "sha512"):
+                    for prf in ("256", "384"):
+                        k = "chain_hash_cells_%s_%s-%s_prf%s" % (role, use, h, prf)
+                        if res.stats.get(k, 0) == 0 and not res.viol:
+                            res.incon.append("chain-hash cell never interoperated: " + k)
 
     return vflib.std_run(ctx, st, "exploration", rule,
         ["conformance = agreement with OpenSSL 3.0; a deviation shared with OpenSSL is invisible",
          "OpenSSL policy knobs opened: security level 0, exact protocol version, SSL_OP_LEGACY_SERVER_CONNECT for the OpenSSL client "
          "(this MatrixSSL build has renegotiation compiled out and sends no renegotiation_info)",
-         "DTLS runs over a lossless in-order datagram queue; application datagrams are limited to what fits one record under the path MTU",
+         "DTLS datagrams are never reordered or duplicated and only whole first transmissions of a handshake flight are lost (C16 covers arbitrary schedules MatrixSSL-to-MatrixSSL); "
+         "application datagrams are limited to what fits one record under the path MTU",
+         "known open finding F-C10-dtls-finished-resent-under-new-epoch: whenever MatrixSSL has to retransmit a flight containing ChangeCipherSpec+Finished the handshake with OpenSSL stalls "
+         "(keys c10:dtls-loss-handshake-stalls:...); the cases are executed and reported as KNOWN-FINDING",
+         "pairs of identities that need two different root files for one CA name (rsa2048 with rsa2048-sha512, ec384 with ec384-sha384, ec521 with ec521-sha512) are not run: OpenSSL would complete its chain "
+         "with a root that differs from MatrixSSL's anchor, which is certificate-path building (C03/C04), not wire conformance",
+         "a DTLS ClientHello must fit the path MTU (the library fragments Certificate messages only): long cookies are not combined with tickets that carry a client certificate",
          "early data is not exercised"],
         min_nontrivial=3000 if ctx.thorough else 250, post=post)
